@@ -179,3 +179,179 @@ Proof.
     rewrite T1. cbn. apply app_nil_r.
   - f_equal. unfold fx_original_id1. rewrite (fx_find_app_skip _ _ _ _ T2). reflexivity.
 Qed.
+
+(* ------------------------------------------------------------------------------------------------
+   The normal form of the plain writer, and (3): the writer followed by the reader is the identity on it *)
+Record fx_normal (d : doc) : Prop := {
+  fxn_wf : wf_doc d;
+  (* numbered 1..n, the table in key order *)
+  fxn_keys : map fst (d_objects d) = fx_ids_1n (length (d_objects d));
+  (* every object is reachable, and the numbers are the first-encounter order of the queue *)
+  fxn_written : written (graph_of d) (roots_of d) = fx_ids_1n (length (d_objects d));
+  (* no dictionary entry with a null value (explicit null, reference to a null or absent object), at any depth *)
+  fxn_nonull : forall k i, In (k, i) (d_objects d) -> fx_nonull (d_objects d) (i_val i) = true;
+  (* a stream dictionary ends with the actual /Length and has no other /Length *)
+  fxn_shape : forall k i data, In (k, i) (d_objects d) -> i_stream i = Some data ->
+     exists dd, i_val i = ODict (dd ++ [fx_len_entry data]) /\ Forall (fun kv => beqb (fst kv) k_Length = false) dd;
+  fxn_tr_nonull : fx_nonull (d_objects d) (ODict (d_trailer d)) = true;
+  (* the trailer is trimmed_trailer(): none of the keys the writer owns *)
+  fxn_trimmed : Forall (fun kv => fx_owned (fst kv) = false) (d_trailer d);
+  fxn_size : find (fun kv => beqb (fst kv) k_Size) (d_trailer d)
+             = Some (k_Size, OInt (Z.of_N (N.of_nat (length (d_objects d)) + 1)));
+  (* static-id mode: the second /ID string is the static one, the first one is not empty *)
+  fxn_id2 : d_id2 d = static_id;
+  fxn_id1 : d_id1 d <> []
+}.
+
+Lemma fx_rn_id : forall objs ren o, fx_nonull objs o = true ->
+  (forall id, In id (refs_of objs o) -> ren id = id) -> fx_rn objs ren o = o.
+Proof.
+  intros objs ren.
+  apply (obj_ind' (fun o => fx_nonull objs o = true -> (forall id, In id (refs_of objs o) -> ren id = id) ->
+                            fx_rn objs ren o = o)); try (intros; reflexivity).
+  - intros id _ H. cbn [fx_rn]. rewrite (H id); [reflexivity | left; reflexivity].
+  - intros l IH Hn Hr. cbn [fx_rn]. f_equal. cbn [fx_nonull] in Hn. cbn [refs_of] in Hr.
+    induction IH as [|x l Hx _ IHl]; [reflexivity|].
+    cbn [forallb] in Hn. apply andb_true_iff in Hn. destruct Hn as [Hn1 Hn2].
+    cbn [flat_map] in Hr. cbn [map]. f_equal.
+    + apply Hx; [exact Hn1|]. intros id Hid. apply Hr. apply in_or_app. left. exact Hid.
+    + apply IHl; [exact Hn2|]. intros id Hid. apply Hr. apply in_or_app. right. exact Hid.
+  - intros d IH Hn Hr. cbn [fx_rn]. f_equal. cbn [fx_nonull] in Hn. cbn [refs_of] in Hr.
+    induction IH as [|kv d Hkv _ IHd]; [reflexivity|].
+    cbn [forallb] in Hn. apply andb_true_iff in Hn. destruct Hn as [Hn1 Hn2].
+    apply andb_true_iff in Hn1. destruct Hn1 as [Hnn Hn1]. apply negb_true_iff in Hnn.
+    cbn [flat_map] in *. rewrite Hnn in *. cbn [app]. f_equal.
+    + destruct kv as [k v]. cbn [fst snd] in *. f_equal. apply Hkv; [exact Hn1|].
+      intros id Hid. apply Hr. apply in_or_app. left. exact Hid.
+    + apply IHd; [exact Hn2|]. intros id Hid. apply Hr. apply in_or_app. right. exact Hid.
+Qed.
+
+Lemma fx_find_obj_nodup : forall (l : list (N * indirect)) k i, NoDup (map fst l) -> In (k, i) l -> find_obj l k = Some i.
+Proof.
+  induction l as [|[k' v] l IH]; intros k i Hnd Hin; [destruct Hin|].
+  cbn [map fst] in Hnd. inversion Hnd as [|? ? Hna Hnd']; subst. cbn [find_obj].
+  destruct Hin as [Hin|Hin].
+  - inversion Hin; subst. rewrite N.eqb_refl. reflexivity.
+  - destruct (k' =? k) eqn:E; [|apply IH; assumption].
+    apply N.eqb_eq in E. subst k'. exfalso. apply Hna. apply in_map_iff. exists (k, i). split; [reflexivity | exact Hin].
+Qed.
+
+Lemma fx_objs_nodup : forall d, doc_closed d -> NoDup (map fst (d_objects d)).
+Proof.
+  intros d [Hnd _]. unfold graph_of in Hnd. rewrite map_map in Hnd. cbn [fst] in Hnd. exact Hnd.
+Qed.
+
+Lemma fx_filter_keep : forall (dd : list (list N * obj)),
+  Forall (fun kv => beqb (fst kv) k_Length = false) dd ->
+  filter (fun kv => negb (beqb (fst kv) k_Length)) dd = dd.
+Proof.
+  intros dd H. induction H as [|kv dd Hkv _ IH]; [reflexivity|]. cbn [filter]. rewrite Hkv. cbn [negb]. rewrite IH. reflexivity.
+Qed.
+
+Lemma fx_drop_length_shape : forall dd e,
+  Forall (fun kv => beqb (fst kv) k_Length = false) dd -> beqb (fst e) k_Length = true ->
+  drop_length (ODict (dd ++ [e])) = ODict dd.
+Proof.
+  intros dd e H He. cbn [drop_length]. rewrite filter_app, (fx_filter_keep dd H). cbn [filter]. rewrite He. cbn [negb].
+  rewrite app_nil_r. reflexivity.
+Qed.
+
+(* a reference printed in a non-null trailer entry is a root of the queue *)
+Lemma fx_trailer_ref_root : forall d r kv x,
+  NoDup (map fst (d_trailer d)) ->
+  find (fun kv => beqb (fst kv) k_Root) (d_trailer d) = Some (k_Root, ORef r) ->
+  In kv (d_trailer d) -> is_null_val (d_objects d) (snd kv) = false ->
+  In x (refs_of (d_objects d) (snd kv)) -> In x (roots_of d).
+Proof.
+  intros d r kv x Hnd Hroot Hkv En Hx.
+  destruct (beqb (fst kv) k_Root) eqn:Er.
+  - apply beqb_eq in Er. destruct kv as [k v]. cbn [fst snd] in *. subst k.
+    pose proof (find_some _ _ Hroot) as [Hr _].
+    rewrite (nodup_key_unique _ _ _ _ _ _ Hnd Hkv Hr) in Hx.
+    unfold roots_of. rewrite Hroot. apply in_or_app. left. exact Hx.
+  - unfold roots_of. apply in_or_app. right. apply in_flat_map. exists kv. split; [exact Hkv|].
+    rewrite Er, En. exact Hx.
+Qed.
+
+(* on a document numbered in first-encounter order the queue's renumbering is the identity *)
+Lemma fx_ren_identity : forall d n, doc_closed d ->
+  written (graph_of d) (roots_of d) = fx_ids_1n n ->
+  forall x, In x (written (graph_of d) (roots_of d)) -> fx_ren d x = x.
+Proof.
+  intros d n Hc Hw x Hx. pose proof (renumber_order_lemma _ _ Hc) as Ho.
+  rewrite Hw in Ho, Hx. unfold fx_ids_1n in *. rewrite map_length, seq_length, map_map in Ho.
+  apply in_map_iff in Hx. destruct Hx as [j [<- Hj]].
+  pose proof (proj1 (@map_ext_in_iff _ _ _ _ _) Ho j Hj) as H. cbn beta in H.
+  unfold fx_ren. rewrite H. reflexivity.
+Qed.
+
+Lemma fx_norm_normal_id : forall d, fx_normal d -> fx_norm d = d.
+Proof.
+  intros d NF. destruct NF as [W Hkeys Hwr Hnn Hshape Htn Htrim Hsize Hid2 Hid1].
+  pose proof (wfd_closed d W) as Hc.
+  pose proof (fx_objs_nodup d Hc) as Hndo.
+  destruct (wfd_keys_nodup d W) as [Hndt _].
+  destruct (wfd_root d W) as [r [ir [Hroot _]]].
+  destruct (queue_complete_lemma _ _ Hc) as [_ Hq].
+  set (n := length (d_objects d)) in *.
+  pose proof (fx_ren_identity d n Hc Hwr) as Hren.
+  assert (Hlenw : length (written (graph_of d) (roots_of d)) = n).
+  { rewrite Hwr. unfold fx_ids_1n. rewrite map_length, seq_length. reflexivity. }
+  (* objects *)
+  assert (Hobjs : map (fx_norm_obj d) (written (graph_of d) (roots_of d)) = d_objects d).
+  { rewrite Hwr, <- Hkeys, map_map. rewrite <- (map_id (d_objects d)) at 2.
+    apply map_ext_in. intros [k i] Hin. cbn [fst].
+    assert (Hk : In k (written (graph_of d) (roots_of d))).
+    { rewrite Hwr, <- Hkeys. apply in_map_iff. exists (k, i). split; [reflexivity | exact Hin]. }
+    pose proof (fx_find_obj_nodup _ _ _ Hndo Hin) as Hf.
+    unfold fx_norm_obj. rewrite (Hren k Hk), Hf. f_equal.
+    assert (Hv : fx_norm_val d i = i_val i).
+    { unfold fx_norm_val. destruct (i_stream i) as [data|] eqn:Es.
+      - destruct (Hshape k i data Hin Es) as [dd [Hval Hdd]].
+        assert (Hdl : drop_length (i_val i) = ODict dd).
+        { rewrite Hval. apply fx_drop_length_shape; [exact Hdd | reflexivity]. }
+        rewrite Hdl.
+        rewrite fx_rn_id; [rewrite Hval; reflexivity | |].
+        + pose proof (Hnn k i Hin) as H. rewrite Hval in H. cbn [fx_nonull] in H. rewrite forallb_app in H.
+          apply andb_true_iff in H. exact (proj1 H).
+        + intros id Hid. apply Hren. apply Hq. apply (reach_step _ _ k); [apply Hq; exact Hk|].
+          rewrite (children_graph_of_stream d k i data Hf Es), Hdl. exact Hid.
+      - apply fx_rn_id; [exact (Hnn k i Hin)|].
+        intros id Hid. apply Hren. apply Hq. apply (reach_step _ _ k); [apply Hq; exact Hk|].
+        rewrite (children_graph_of d k i Hf Es). exact Hid. }
+    rewrite Hv. destruct i; reflexivity. }
+  (* trailer *)
+  assert (Htr : flat_map (fx_norm_entry d) (d_trailer d) = d_trailer d).
+  { rewrite <- (map_id (d_trailer d)) at 2. apply fx_flat_map_single. intros kv Hin.
+    unfold fx_norm_entry.
+    cbn [fx_nonull] in Htn. rewrite forallb_forall in Htn. specialize (Htn kv Hin).
+    apply andb_true_iff in Htn. destruct Htn as [Hnull Hnn']. apply negb_true_iff in Hnull.
+    rewrite Forall_forall in Htrim. rewrite Hnull, (Htrim kv Hin). cbn [orb]. f_equal.
+    destruct kv as [k v]. cbn [fst snd] in *. f_equal.
+    destruct (beqb k k_Size) eqn:Es.
+    - apply beqb_eq in Es. subst k. pose proof (find_some _ _ Hsize) as [Hs _].
+      rewrite Hlenw. symmetry. exact (nodup_key_unique _ _ _ _ _ _ Hndt Hin Hs).
+    - apply fx_rn_id; [exact Hnn'|]. intros id Hid. apply Hren. apply Hq. apply reach_root.
+      exact (fx_trailer_ref_root d r (k, v) id Hndt Hroot Hin Hnull Hid). }
+  unfold fx_norm. rewrite Hobjs, Htr.
+  assert (Hi1 : generate_id1 (d_id1 d) static_id = d_id1 d).
+  { unfold generate_id1. destruct (d_id1 d); [exfalso; apply Hid1; reflexivity | reflexivity]. }
+  rewrite Hi1, <- Hid2. destruct d; reflexivity.
+Qed.
+
+(* (3) the writer is idempotent on normal forms: writing a normal form and reading the bytes back gives the SAME
+   document (not merely an isomorphic one) *)
+Lemma writer_idempotent_on_normal_forms_lemma : forall d, fx_normal d ->
+  N.of_nat (length (fx_write d)) < 10 ^ 10 ->
+  fx_read (fx_write d) = Some d.
+Proof.
+  intros d NF Hlt. rewrite (fx_read_write_lemma d (fxn_wf d NF) Hlt), (fx_norm_normal_id d NF). reflexivity.
+Qed.
+
+(* hence a normal form is a fixpoint of one generation: plain mode, static id *)
+Lemma normal_form_is_fixpoint_lemma : forall d, fx_normal d ->
+  N.of_nat (length (fx_write d)) < 10 ^ 10 ->
+  fx_regen (fx_write d) = Some (fx_write d).
+Proof.
+  intros d NF Hlt. unfold fx_regen. rewrite (writer_idempotent_on_normal_forms_lemma d NF Hlt). reflexivity.
+Qed.
